@@ -24,7 +24,7 @@ Flavs == JsonDeserialize(IOEnv.FLAV_FILE)
 NF == Len(Flavs)
 
 \* fabricated messages the puppet can insert (besides copies of its own earlier messages)
-Fab == {"HREQ", "SHD", "NST", "CCS", "APP", "KU"}
+Fab == {"HREQ", "SHD", "NST", "CCS", "APP", "KU", "CR"}
 
 VARIABLES fi,      \* flavour index
           script,  \* sequence of edits applied so far: <<op, k, t>>
@@ -50,7 +50,9 @@ Admit(q) ==
     [] q = "C_SH2"     -> {"SH"}
     [] q = "C_CERT"    -> {"CERT"}
     [] q = "C_SKE"     -> {"SKE"}
-    [] q = "C_CR_SHD"  -> IF F.certSuite THEN {"CR", "SHD"} ELSE {"SHD"}
+    \* a CertificateRequest needs a certificate-authenticated server; the SRP handshake profile (RFC 5054 2.2)
+    \* has no CertificateRequest even in its certificate-bearing variants
+    [] q = "C_CR_SHD"  -> IF F.certSuite /\ ~F.srp THEN {"CR", "SHD"} ELSE {"SHD"}
     [] q = "C_SHD"     -> {"SHD"}
     [] q = "X_NST_CCS" -> IF Client /\ F.ticket THEN {"NST", "CCS"} ELSE {"CCS"}
     [] q = "X_CCS"     -> {"CCS"}
@@ -69,7 +71,8 @@ Admit(q) ==
     [] q = "S13_CERT"  -> {"CERT", "CERT0", "CCERT", "CCERT0"}
     [] q = "S13_CV"    -> {"CV"}
     [] q = "S13_FIN"   -> {"FIN"}
-    [] q = "OPEN"      -> IF Tls13 THEN (IF Client THEN {"APP", "NST", "KU"} ELSE {"APP", "KU"})
+    \* a client that advertised post_handshake_auth (it holds a certificate) admits a CertificateRequest later
+    [] q = "OPEN"      -> IF Tls13 THEN (IF Client THEN {"APP", "NST", "KU"} \cup (IF F.pha THEN {"CR"} ELSE {}) ELSE {"APP", "KU"})
                           \* TLS <= 1.2: renegotiation requests are refused with a warning, the
                           \* connection continues and no second handshake starts
                           ELSE (IF Client THEN {"APP", "HREQ"} ELSE {"APP", "CH"})
